@@ -24,9 +24,10 @@ Here they are instantiated to the executable model `uniqueInvariantFilters` of
 `get_unique_invariant_filters`, for **every** dimension `d`, side `M`, order `k`, parity `p` and every
 operator list that enumerates a group of signed permutation matrices.
 
-Out of scope (not mechanised): "every translation-equivariant linear map is a convolution", hence
-the last sentence of the property is covered only in the form "the family is a basis of the
-`G`-invariant filters".
+The last sentence of the property ("every translation- and G-equivariant linear map … is reachable
+by weighting this family, and nothing non-equivariant is") is in `Properties/C03Converse.lean`
+(`conv_equivariant_iff_filter_invariant`, `conv_equivariant_iff_mem_span_family`) and
+`Properties/C03ConverseLinear.lean` (`shift_equivariant_linear_iff_conv`).
 -/
 
 namespace GinjaxVerif.C03
